@@ -96,6 +96,15 @@ def explore(ctx):
         desc["kerning"] = {(names[0], names[1]): Fr(-30)}
         desc["groups"] = {"public.kern1.A": [names[0]], "public.kern2.B": [names[1]]}
         desc["lib"] = {}
+        # every list-valued (mutable) font-info attribute is explicit and non-empty, and the style-map style cycles through
+        # its four values: a compiler that extends or sorts such a list in place edits the caller's font info
+        desc["info"] = dict(desc.get("info", {}), styleMapStyleName=["regular", "bold", "italic", "bold italic"][i % 4],
+                            openTypeOS2Selection=[7] if i % 3 else [7, 8], openTypeOS2Type=[2], openTypeOS2Panose=[2, 0, 5, 3, 0, 0, 0, 0, 0, 0],
+                            openTypeOS2UnicodeRanges=[1, 0], openTypeOS2CodePageRanges=[1, 0], openTypeHeadFlags=[3, 0],
+                            openTypeOS2FamilyClass=[1, 1], postscriptBlueValues=[-10, 0, 500, 510], postscriptOtherBlues=[-250, -240],
+                            postscriptStemSnapH=[90, 80], postscriptStemSnapV=[100, 95],
+                            openTypeNameRecords=[{"nameID": 5, "platformID": 3, "encodingID": 1, "languageID": 0x409, "string": "Version 1.0"}],
+                            openTypeGaspRangeRecords=[{"rangeMaxPPEM": 65535, "rangeGaspBehavior": [1, 0]}])
         opts = {}
         flt = []
         if rng.random() < 0.5:
